@@ -49,7 +49,7 @@ func (a *Addressing) ExtractMailbox(address string) (string, error) {
 		return "", fmt.Errorf("domain part %q in %q failed validation", domain, address)
 	}
 
-	return local + "@" + domain, nil
+	return local + "@" + canonicalDomain(domain), nil
 }
 
 // NewRecipient parses an address into a Recipient. This is used for parsing RCPT TO arguments,
@@ -160,7 +160,7 @@ func ValidateDomainPart(domain string) bool {
 	if ln >= 4 && domain[0] == '[' && domain[ln-1] == ']' {
 		// Bracketed domains must contain an IP address.
 		s := 1
-		if strings.HasPrefix(domain[1:], "IPv6:") {
+		if len(domain) > 6 && strings.EqualFold(domain[1:6], "IPv6:") {
 			s = 6
 		}
 		ip := net.ParseIP(domain[s : ln-1])
@@ -238,7 +238,18 @@ func extractDomainMailbox(address string) (string, error) {
 		return "", fmt.Errorf("domain part %q in %q failed validation", domain, address)
 	}
 
-	return domain, nil
+	return canonicalDomain(domain), nil
+}
+
+// canonicalDomain returns the form of a validated domain part used in mailbox names.  Domains
+// are case-insensitive, so the name must not depend on letter case; the tag of an IPv6 address
+// literal keeps its customary spelling.
+func canonicalDomain(domain string) string {
+	domain = strings.ToLower(domain)
+	if strings.HasPrefix(domain, "[ipv6:") {
+		domain = "[IPv6:" + domain[len("[ipv6:"):]
+	}
+	return domain
 }
 
 // parseEmailAddress unescapes an email address, and splits the local part from the domain part.  An
